@@ -293,19 +293,19 @@ Lemma be32_opt_ttl e v d : e < 256 -> v < 256 -> d < 65536 ->
   be32 (e * 16777216 + v * 65536 + d) = be16 (e * 256 + v) ++ be16 d.
 Proof. intros. unfold be32, be16. cbn [app]. f_equal; [|f_equal; [|f_equal; [|f_equal]]]; lia. Qed.
 
-Definition wf_oh (oh : opt_hdr) : Prop := oh_udp oh < 65536 /\ oh_ver oh < 256.
+Definition wf_oh (oh : opt_hdr) : Prop := oh_udp oh < 65536 /\ oh_ver oh < 256 /\ oh_flags oh < 65536.
 
 Lemma compose_opt_ok c oh opts w w' :
   WG c ok12 w -> 12 <= mlen (w_buf w) -> wf_oh oh -> compose_opt c oh opts w = WOk w' ->
   WG c ok12 w' /\ RAt (w_buf w') (mlen (w_buf w)) (opt_record oh opts) (mlen (w_buf w')) /\
   exists sfx, w_buf w' = w_buf w ++ sfx.
 Proof.
-  intros HW L (Hu & Hver) H. unfold compose_opt in H.
+  intros HW L (Hu & Hver & Hfl) H. unfold compose_opt in H.
   set (st := mlen (w_buf w)) in *.
   set (old := fun i => ok12 i /\ i < st).
-  set (x := oh_udp oh) in *. set (y := oh_ext oh * 256 + oh_ver oh) in *. set (z := if oh_do oh then 32768 else 0) in *.
+  set (x := oh_udp oh) in *. set (y := oh_ext oh * 256 + oh_ver oh) in *. set (z := oh_flags oh) in *.
   assert (Hext : oh_ext oh < 256) by (unfold oh_ext; destruct (oh_rc oh); lia).
-  assert (Hz : z < 65536) by (subst z; destruct (oh_do oh); lia).
+  assert (Hz : z < 65536) by (subst z; exact Hfl).
   assert (HWo : WG c old w).
   { destruct HW as (TB & SI & CI). split; [exact TB|]. split; [exact SI|]. apply CInv_below in CI. exact CI. }
   destruct (append_slice c opt_header_default w) as [w1|w1| |] eqn:E1; cbn [wbind] in H; try discriminate.
@@ -360,7 +360,7 @@ Proof.
       { subst m. rewrite !mlen_app. change (mlen [0]) with 1. change (mlen (be16 41)) with 2. change (mlen (be16 x)) with 2.
         change (mlen (be16 y)) with 2. change (mlen (be16 z)) with 2. change (mlen (be16 len)) with 2. fold st. fold len. lia. }
       exists (st + 1). cbn [opt_record r_owner r_type r_class r_ttl r_data].
-      fold x. replace (oh_ext oh * 16777216 + oh_ver oh * 65536 + (if oh_do oh then 32768 else 0)) with (oh_ext oh * 16777216 + oh_ver oh * 65536 + z) by reflexivity.
+      fold x. fold z.
       rewrite (be32_opt_ttl _ _ _ Hext Hver Hz). fold y.
       replace (mlen m - (st + 1 + 10)) with len by lia.
       split; [|split; [|split; [|split; [lia|split; [lia|split; [|exact L]]]]]].
@@ -383,7 +383,7 @@ Proof.
            rewrite app_nil_r in X. exact X.
         -- fold len. rewrite <- Lm. constructor.
       * unfold wf_r; cbn [opt_record r_owner r_type r_class r_ttl r_data].
-        split; [exact name_ok_root|]. split; [lia|]. split; [exact Hu|]. split; [subst z; destruct (oh_do oh); lia|].
+        split; [exact name_ok_root|]. split; [lia|]. split; [exact Hu|]. split; [lia|].
         constructor; [exact I|constructor].
     + rewrite B5. eexists; reflexivity.
   - destruct (truncate c (mlen (w_buf w2)) w4); discriminate.
